@@ -20,6 +20,7 @@ CLASSES = [
     "bad_member",
     "extra_member",
     "pair_foreign_bundle",
+    "superset_bundle",
     "bad_index",
     "empty_slice",
     "orphan_other_module",
@@ -362,6 +363,37 @@ def _pair_foreign_bundle(ch, ops, d, hier, top):
     nop[4] = ["b", bname]
     site = f"{'top' if mid == hier[-1] else 'deep'}:pair:b"
     return [["bundle", nb, f"BX{nb}", sigs, []]] + ops[:i] + [["bun", mid, bname, nb, False, False], nop] + ops[i + 1 :], site
+
+
+def _superset_bundle(ch, ops, d, hier, top):
+    """A bundle-valued port of an instance or *array* takes an instance of another bundle type: every
+    member of the port's bundle, plus one more (which has nowhere to go)."""
+    cands = []
+    for i in live_conn_ops(ops, d, hier):
+        op = ops[i]
+        info = d.mods[op[1]].insts.get(op[2])
+        if not info or info["kind"] not in ("inst", "arr") or op[4][0] != "b":
+            continue
+        shape = d.target_ports(info["target"]).get(op[3])
+        if isinstance(shape, tuple):
+            cands.append((i, shape[1], 2 if info["kind"] == "arr" else 1))
+    if not cands:
+        return None
+    # arrays first: only the flattening passes look at their connections
+    cands = [c for c in cands for _ in range(c[2])]
+    i, bid, _w = ch.pick(cands, "site")
+    op = ops[i]
+    mid = op[1]
+    b = d.bundles[bid]
+    nb = 8000 + len(ops)
+    sigs = [[n_, w_, (b.get("kinds") or {}).get(n_, "s")] for n_, w_ in b["sigs"].items()] + [["zextra", 1, "s"]]
+    subs = [[n_, sb, fl] for n_, (sb, fl) in b["subs"].items()]
+    bname = f"sb{len(ops)}"
+    old_b = d.mods[mid].buns[op[4][1]]
+    nop = copy.deepcopy(op)
+    nop[4] = ["b", bname]
+    site = f"{'top' if mid == hier[-1] else 'deep'}:{d.mods[mid].insts[op[2]]['kind']}:b"
+    return [["bundle", nb, f"BS{nb}", sigs, subs]] + ops[:i] + [["bun", mid, bname, nb, False, bool(old_b[2])], nop] + ops[i + 1 :], site
 
 
 def _bad_index(ch, ops, d, hier, top):
